@@ -203,5 +203,13 @@ S11 = Scenario(
     depth={"quick": 2, "thorough": 3},
     note="two netlists referencing each other's definitions: cross-netlist moves, re-points and top changes")
 
-STRUCTURAL += [S10, S11, S9, S12]
+S13 = Scenario(
+    "S13-own-views", seeds.seed_conn,
+    [n for n in _ops.build_ops() if n.endswith(".ownview") or n.endswith("=.reversed-ownview")] +
+    ["wire.connect_pin", "definition.create_port", "cable.create_wire"],
+    limits={"positions": (None,), "names": (None, "a"), "counts": (None, 1), "proxy_pairs": lambda w: [], "odd_bulk": False, "bulk_max": 1},
+    depth={"quick": 2, "thorough": 3},
+    note="bulk removals and reorder assignments given the live view of the collection they modify")
+
+STRUCTURAL += [S10, S11, S9, S12, S13]
 INSTANCE_SCENARIOS += [S11]
